@@ -14,6 +14,7 @@ import (
 	"runtime"
 	"sort"
 	"strconv"
+	"strings"
 	"sync"
 	"sync/atomic"
 	"testing/synctest"
@@ -429,7 +430,11 @@ func (m *Sim) Finish(t *Task) {
 		case <-m.S.notify:
 		case <-t.done:
 		case <-deadline.C:
-			m.Fail(m.Prop+".stuck", t.Name, "operation did not finish within %v of simulated time (phase %s)", MaxTaskWait, m.Phase)
+			site := t.Name
+			if i := strings.Index(site, ":"); i >= 0 && strings.HasPrefix(site, "op") {
+				site = site[i+1:] // without the running number: one finding, not one per run
+			}
+			m.Fail(m.Prop+".stuck", site, "operation did not finish within %v of simulated time (phase %s)", MaxTaskWait, m.Phase)
 		}
 	}
 }
